@@ -63,6 +63,8 @@ StoredRecvs ==
     [recv |-> Q("poll://g1/i1"), kind |-> "logical", name |-> "poll://g1/i1"],
     [recv |-> Q("poll://g2"), kind |-> "logical", name |-> "poll://g2"],
     [recv |-> Q("poll://g1/eu/w1"), kind |-> "logical", name |-> "poll://g1/eu/w1"],     \* an id with a slash in it
+    [recv |-> Q("poll://g1/worker%201"), kind |-> "logical", name |-> "poll://g1/worker%201"],   \* percent-encoded: the listener registered as "worker 1"
+    [recv |-> Q("poll://g1/a%2Fb"), kind |-> "logical", name |-> "poll://g1/a%2Fb"],
     [recv |-> Q("http://h.test/x"), kind |-> "logical", name |-> "http://h.test/x"],
     [recv |-> Q("https://h.test/y?z=1"), kind |-> "logical", name |-> "https://h.test/y?z=1"],
     [recv |-> Q("ftp://h.test/x"), kind |-> "logical", name |-> "ftp://h.test/x"],
@@ -83,6 +85,8 @@ SchemeOf(name) ==
   CASE name = "poll://g1/i1" -> [type |-> "poll", data |-> "{\"group\":\"g1\",\"id\":\"i1\"}"]
     [] name = "poll://g2" -> [type |-> "poll", data |-> "{\"group\":\"g2\"}"]
     [] name = "poll://g1/eu/w1" -> [type |-> "poll", data |-> "{\"group\":\"g1\",\"id\":\"eu/w1\"}"]
+    [] name = "poll://g1/worker%201" -> [type |-> "poll", data |-> "{\"group\":\"g1\",\"id\":\"worker 1\"}"]
+    [] name = "poll://g1/a%2Fb" -> [type |-> "poll", data |-> "{\"group\":\"g1\",\"id\":\"a/b\"}"]
     [] name = "http://h.test/x" -> [type |-> "http", data |-> "{\"url\":\"http://h.test/x\"}"]
     [] name = "https://h.test/y?z=1" -> [type |-> "http", data |-> "{\"url\":\"https://h.test/y?z=1\"}"]
     [] OTHER -> [type |-> "", data |-> ""]
